@@ -11,9 +11,10 @@ import SevenZ.Driver.Crc
 import SevenZ.Driver.Writer
 import SevenZ.Driver.Conc
 import SevenZ.Driver.Progress
+import SevenZ.Driver.Assign
 open SevenZ.Driver
 
-def handlers : List (String → List String → Option String) := [primHandler, headerHandler, pathHandler, decHandler, readerHandler, specHandler, listingHandler, aesHandler, crcHandler, writerHandler, concHandler, progHandler]
+def handlers : List (String → List String → Option String) := [primHandler, headerHandler, pathHandler, decHandler, readerHandler, specHandler, listingHandler, aesHandler, crcHandler, writerHandler, concHandler, progHandler, assignHandler]
 
 def step (line : String) : String :=
   match (line.trimAscii.toString.splitOn " ").filter (· ≠ "") with
